@@ -3,6 +3,7 @@ package main
 import (
 	"bytes"
 	"fmt"
+	"runtime"
 	"runtime/debug"
 	"strings"
 	"sync/atomic"
@@ -97,11 +98,17 @@ func trimStack(st []byte) string {
 // panicInRepo reports whether the innermost non-runtime frame of a recovered panic lies in /repo.
 // panicInDependency: the innermost frame that is neither the Go runtime nor this harness lies outside /repo
 // (a dependency of dyntpl, e.g. a code-generated inspector indexing with a negative number).
+// stdFrame: a stack line of the Go standard library (runtime, reflect, strconv, …): a panic raised there belongs to
+// whoever called into it.
+func stdFrame(l string) bool {
+	return strings.HasPrefix(l, runtime.GOROOT()+"/") || strings.Contains(l, "/src/runtime/") || strings.Contains(l, "/go/src/") || strings.Contains(l, "/go-1.")
+}
+
 func panicInDependency(p string) bool {
 	for _, l := range strings.Split(p, "\n") {
 		l = strings.TrimSpace(l)
 		if strings.HasPrefix(l, "/") && strings.Contains(l, ".go:") {
-			if strings.Contains(l, "/verif/harness/") || strings.Contains(l, "/src/runtime/") {
+			if strings.Contains(l, "/verif/harness/") || stdFrame(l) {
 				continue
 			}
 			return !strings.HasPrefix(l, "/repo/")
@@ -114,7 +121,7 @@ func panicInRepo(p string) bool {
 	for _, l := range strings.Split(p, "\n") {
 		l = strings.TrimSpace(l)
 		if strings.HasPrefix(l, "/") && strings.Contains(l, ".go:") {
-			if strings.Contains(l, "verif/harness") && strings.Contains(l, "engine.go") {
+			if (strings.Contains(l, "verif/harness") && strings.Contains(l, "engine.go")) || stdFrame(l) {
 				continue
 			}
 			return strings.HasPrefix(l, "/repo/")
